@@ -203,6 +203,16 @@ pub fn record(seed: u64, tier: &str, out_path: &str) {
         check("short-msg", &pk, &msg[..len / 2], &sig, false);
         let mut longer = msg.clone(); longer.push(0);
         check("long-msg", &pk, &longer, &sig, false);
+        // byte strings of another length are not signatures, whatever they begin or end with (a panic counts as "refused")
+        for cut in [0usize, 1, 32, 63] { check("short-sig", &pk, &msg, &sig[..cut], false); }
+        for extra in [1usize, 4, 32, 64] {
+            let mut s2 = sig.clone(); s2.extend(std::iter::repeat(0u8).take(extra));
+            check("long-sig", &pk, &msg, &s2, false);
+            let mut s3 = vec![0u8; extra]; s3.extend_from_slice(&sig);
+            check("long-sig", &pk, &msg, &s3, false);
+        }
+        let twice = [sig.clone(), sig.clone()].concat();
+        check("long-sig", &pk, &msg, &twice, false);
     }
     // several verifier objects alive at once on one thread, fed alternately: each holds its own message
     for t in 0..(if thorough { 40 } else { 10 }) {
